@@ -129,7 +129,7 @@ def field_events(classes, ulog, plog):
 
 
 # ------------------------------------------------------------------ projections
-def abs_value(v):
+def abs_value(v, visible=False):
     if isinstance(v, bool):
         return {"t": "int", "i": int(v)}
     if isinstance(v, int):
@@ -139,15 +139,15 @@ def abs_value(v):
     if v is None:
         return {"t": "none"}
     if isinstance(v, list):
-        return {"t": "list", "l": [abs_value(x) for x in v]}
+        return {"t": "list", "l": [abs_value(x, visible) for x in v]}
     if isinstance(v, Packet):
-        return abs_packet(v)
+        return abs_packet(v, visible)
     return {"t": "other", "o": repr(v)}
 
 
-def abs_packet(p):
+def abs_packet(p, visible=False):
     """value-bearing fields of a packet, in declaration order, under their visible names;
-    a described field shows its hidden (parsed / synced) slot."""
+    a described field shows its hidden (parsed / synced) slot, or with visible=True what the attribute reads as."""
     from bisturi.structural_fields import Move
     from bisturi.field import Em
     vals = []
@@ -156,10 +156,10 @@ def abs_packet(p):
             continue
         vis = f.descriptor_name if getattr(f, "descriptor_name", None) else name
         try:
-            v = getattr(p, name)
+            v = getattr(p, vis if visible else name)
         except AttributeError:
             continue
-        vals.append({"n": vis, "v": abs_value(v)})
+        vals.append({"n": vis, "v": abs_value(v, visible)})
     return {"t": "pkt", "cls": p.__class__.__name__, "vals": vals}
 
 
